@@ -432,22 +432,24 @@ def flush_placements(writes, maxflush):
 def stream_sets(tier):
     if tier == "quick":
         return [
-            ("A", "bare", "L5", 1, 2, 4, 2, ["o"]),
+            ("A1", "bare", "L9", 1, 1, 4, 2, ["o"]),
+            ("A", "bare", "L5", 1, 2, 4, 1, ["o"]),
             ("A9", "bare", "L9", 1, 2, 3, 2, ["o"]),
-            ("B", "bare", "L5", 3, 3, 3, 1, ["o"]),
-            ("C", "live", "L9", 1, 2, 3, 1, ["o", "e"]),
+            ("B2", "bare", "L5", 3, 3, 2, 1, ["o"]),
+            ("B3", "bare", "L5", 3, 3, 3, 0, ["o"]),
+            ("C", "live", "L9", 1, 2, 3, 1, ["o"]),
+            ("Ce", "live", "L5", 1, 2, 2, 1, ["e"]),
             ("D", "progress", "L5", 1, 2, 2, 1, ["o", "e"]),
             ("E", "live", "L5", 1, 2, 3, 0, ["oeo", "eoe", "ooe", "eeo"]),
         ]
     return [
         ("A", "bare", "L5", 1, 3, 4, 2, ["o"]),
         ("A9", "bare", "L9", 1, 2, 4, 2, ["o"]),
-        ("A9x", "bare", "L9", 3, 3, 3, 2, ["o"]),
-        ("B", "bare", "L5", 1, 2, 5, 2, ["o"]),
-        ("Bx", "bare", "L5", 3, 3, 5, 0, ["o"]),
+        ("A9x", "bare", "L9", 3, 3, 3, 1, ["o"]),
+        ("B", "bare", "L5", 1, 2, 5, 1, ["o"]),
         ("F", "bare", "L11", 1, 2, 3, 2, ["o"]),
-        ("C", "live", "L9", 1, 2, 4, 1, ["o", "e"]),
-        ("C2", "live", "L5", 1, 2, 3, 2, ["o", "e"]),
+        ("C", "live", "L9", 1, 2, 3, 2, ["o", "e"]),
+        ("C4", "live", "L9", 1, 2, 4, 0, ["o"]),
         ("D", "progress", "L9", 1, 2, 3, 1, ["o", "e"]),
         ("E", "live", "L5", 1, 2, 3, 1, ["oeo", "eoe", "ooe", "eeo", "oee", "eoo"]),
     ]
@@ -742,8 +744,6 @@ def run_history(variant, ops, res=None, case=None):
             err = _judge(model, cells, breaks)
             if err:
                 verdict = ("e2e/stop/%s" % err[0], "after the display stopped: %s" % err[1])
-            elif screen.events:
-                verdict = ("e2e/terminal-event", "terminal model events %r" % (screen.events[:3],))
     except Exception as e:
         verdict = (_crash_key(e, "live.py" if variant == "live" else "progress.py"), "display raised %r" % (e,))
     finally:
@@ -799,11 +799,15 @@ def _part_fp(sh, tier, res):
             continue
         states = set()
         stop = False
+        mixed = any(len(p) > 1 for p in patterns)
         for ci, cuts in enumerate(cut_tuples(len(s), writes)):
             if ci % 64 == 0 and deadline_passed():
                 res.capped = True
                 stop = True
                 break
+            if mixed and any(_prep(s).inesc[c] for c in cuts):
+                # an escape sequence split between stdout and stderr is garbage on both: not a stream of lines
+                continue
             for fl in placements:
                 for pat in patterns:
                     ops = make_ops(s, cuts, fl, pat)
